@@ -76,7 +76,7 @@ def schemaR (name : String) (ctx : Nat) : J.R Schema :=
     ops: {"t":"w","cls":..,"group":null|str,"ow":bool,"obj":{..}} | {"t":"r","cls":..,"group":..,"ctx":n}
     answer per op: "ok" | {"err":tag} | {"obj":{..}} -/
 def opH5 : J.Op := fun j => do
-  -- "prerepair": ["D8"] / ["D29"] selects the writer / dictionary reader before the respective fix
+  -- "prerepair": ["D8"] / ["D29"] / ["D30"] selects the writer / dictionary reader / protocol writer before the respective fix
   let pre ← J.fieldD j "prerepair" (J.list J.str) []
   let fixed := !pre.contains "D8"
   let dec := !pre.contains "D29"
@@ -92,7 +92,9 @@ def opH5 : J.Op := fun j => do
     if t == "w" then
       let ow ← J.fieldD op "ow" J.bool true
       let o ← objOf sch (← J.field op "obj" pure)
-      let (f', e) := toHdf5G fixed f g ow o
+      -- TruePhenotyping has a `to_hdf5` of its own shape (repair of D30: the named group is created)
+      let (f', e) := if cls == "tp" then (if pre.contains "D30" then toHdf5TPPrerepair f g ow else toHdf5TP f g ow)
+                     else toHdf5G fixed f g ow o
       f := f'
       out := out.push (match e with | none => J.ofStr "ok" | some e => ofErr e)
     else
@@ -226,7 +228,7 @@ def opSpecVcf : J.Op := fun j => do
   let outVars := (List.range p).map (StoreVcf.outVar phased n o)
   let recVars := recs.map (StoreVcf.recVar phased)
   pure <| J.obj [("ok", J.ofBool ok),
-    ("detail", J.ofStr s!"taxa={taxa == samples} shape={StoreVcf.shapeOk phased n p o} same_order={outVars == recVars} perm={outVars.all (fun v => outVars.count v == recVars.count v)}")]
+    ("detail", J.ofStr s!"taxa={taxa == samples} shape={StoreVcf.shapeOk phased n p o} same_order={outVars == recVars} perm={outVars.all (fun v => outVars.count v == recVars.count v)} sorted={StoreVcf.sortedOut p o}")]
 
 def ofName : StoreFrame.Name → Json
   | .s v => J.ofStr v
